@@ -267,7 +267,7 @@ func (d *Driver) property(rec *Record, a Action, tg target, helper interface{}, 
 	}
 	// 1. set through the proxy: the implementor's change callback sees the value, subscribers
 	//    get it, the getter returns it
-	v1 := d.draw(t, maxLen)
+	v1 := d.drawProp(t, maxLen)
 	set := method(proxy, a.Set)
 	mk := d.tap.mark()
 	var out []reflect.Value
@@ -300,7 +300,7 @@ func (d *Driver) property(rec *Record, a Action, tg target, helper interface{}, 
 	rec.Legs = append(rec.Legs, leg("set-event", 2, []*wg.Ty{t}, []*wg.Val{v1}, ev, fe != nil, got))
 	get("get-after-set", v1)
 	// 2. update through the generated helper
-	v2 := d.draw(t, maxLen)
+	v2 := d.drawProp(t, maxLen)
 	h := method(helper, a.Helper)
 	mk = d.tap.mark()
 	updArgs := fillArgs(h, parts(v2), nil)
